@@ -34,7 +34,7 @@ var riskyFeatures = []string{
 	"break.in.while", "break.in.dowhile", "break.in.for", "break.in.foreach", "break.in.switch", "break.level>=2",
 	"continue.in.while", "continue.in.dowhile", "continue.in.for", "continue.in.foreach", "continue.level>=2", "switch.continue-level",
 	"switch.default-middle", "switch.group", "switch.fallthrough",
-	"dowhile.then-prefix-incdec",
+	"dowhile.then-prefix-incdec", "collect", "counter.bump",
 }
 
 var featurePrereq = map[string][]string{
